@@ -731,12 +731,11 @@ def _describe_compound_object_type(
                 f"{t.get_name(ctx.schema)} is not a compound type")
         op = CompoundOp.INTERSECTION
 
-    # The components are a set; order them by id so that the descriptor
+    # The components are a set; order them by name so that the descriptor
     # does not depend on set iteration order.
-    component_ids = sorted(
-        (_describe_object_type(c, ctx=ctx) for c in components),
-        key=lambda cid: cid.bytes,
-    )
+    components = sorted(
+        components, key=lambda c: str(c.get_name(ctx.schema)))
+    component_ids = [_describe_object_type(c, ctx=ctx) for c in components]
 
     # Compound types are normally created on the fly while a query is
     # compiled and get a new random id every time.  Derive the descriptor
